@@ -133,7 +133,9 @@ Variable inflate : bytes -> option bytes.
        nothing), Info counts the pending ones;
      - if a Write failed during the operation (the schedule shrank, the log did
        not grow) the operation returned an error (Add: "flush", FlushCollector: error);
-     - after a successful flush everything accepted is in the writer. *)
+     - after a successful flush everything accepted is in the writer;
+     - the writer's bytes are exactly the encodings of the documents handed over
+       completely (nothing partial in between). *)
 Fixpoint c09_run_from (capz : Z) (st : coll * writer) (total : list doc) (ops : list op) : bool :=
   match ops with
   | [] => true
@@ -148,6 +150,7 @@ Fixpoint c09_run_from (capz : Z) (st : coll * writer) (total : list doc) (ops : 
                                         (snd (c_info (fst st'))) in
           ok && (if write_failed then failed_obs ob else true)
              && (match ob with BFlush true => docs_eqb (dc_docs wd) total' | _ => true end)
+             && bytes_eqb (log_bytes (snd st')) (enc_stream (emitted (snd st')))
              && c09_run_from capz st' total' r
       | _, _ => false
       end
@@ -178,3 +181,7 @@ Definition samples_in (inflate : bytes -> option bytes) (w : writer) : option na
 
 (* instances for the drivers (trivial codec) *)
 Definition x_c09_run := c09_run deflate_flag inflate_flag.
+
+(* the state reached by a history on a fresh collector and a writer with the given fault schedule *)
+Definition c09_reach (deflate : bytes -> bytes) (k : kind) (n : Z) (fs : list fault) (ops : list op) : coll * writer :=
+  fst (run deflate (new_coll k n, mkWriter [] fs false) ops).
